@@ -125,9 +125,10 @@ JudgeNew(st, e) ==
       \* the segment before the call that creates the stream)
       \* a later incarnation inherits the segments that are still in flight (phase "begin" seen, "end" not yet)
       \* (a concurrent flush may close a connection between a packet's lookup and its processing)
-      Carry(h) == LET und == h.maybe   \* (what the closed predecessor had queued died with it)
-                      syn == \E x \in und : x.syn
-                  IN [NewHalf EXCEPT !.segs = und, !.started = syn]
+      \* (what the closed predecessor had queued died with it).  The in-flight segments stay in flight - they
+      \* become arrived data of whichever incarnation is live when their "end" is logged: a concurrent flush can
+      \* open and close an incarnation (through a recycled connection object) before the packet is processed
+      Carry(h) == [NewHalf EXCEPT !.maybe = h.maybe, !.synflight = (\E x \in h.maybe : x.syn)]
       st2 == IF c.news = 0 THEN st
              ELSE [st EXCEPT !.h = [x \in DOMAIN st.h |-> IF x[1] = e.c THEN Carry(st.h[x]) ELSE st.h[x]]]
   IN IF c.news > 0 /\ c.completes = 0      \* the previous stream of this connection was never completed
